@@ -27,11 +27,11 @@ ASSUMPTIONS = [
 
 
 def budget(tier):
-    return 3300 if tier == 'quick' else 65000
+    return 9000 if tier == 'quick' else 90000
 
 
 def strategy(tier):
-    return _lp.lp_cases(tier, cbc_pct=9)
+    return _lp.lp_cases(tier, cbc_pct=9, large_pct=8)
 
 
 describe = solverio.describe_case
@@ -76,6 +76,8 @@ def run_case(case):
             if why:
                 raise Violation('ip_feasible_invalid', 'the integer program admits %r: %s'
                                 % (Mf, why))
+    if case.get('large'):
+        return Result(M is not None and any(M), labels + ['large'], {'solves': len(c.records)})
     nvalid = len(_lp.valid_set(c))
     total = 1
     for r in o.srank:
